@@ -8,6 +8,7 @@ import (
 	"github.com/jsightapi/jsight-schema-core/errs"
 	"github.com/jsightapi/jsight-schema-core/kit"
 
+	"github.com/jsightapi/jsight-api-core/catalog"
 	"github.com/jsightapi/jsight-api-core/directive"
 	"github.com/jsightapi/jsight-api-core/jerr"
 )
@@ -45,7 +46,7 @@ func adoptError(err error) (e *jerr.JApiError) {
 }
 
 func safeAddType(curr schema.Schema, n string, ut schema.Schema) error {
-	err := curr.AddType(n, ut)
+	err := catalog.AddUserType(curr, n, ut)
 	var e interface{ Code() errs.Code }
 	if stdErrors.As(err, &e) && e.Code() == errs.ErrDuplicationOfNameOfTypes {
 		err = nil
